@@ -121,7 +121,8 @@ reg("C18", "other", ["contracts.importers:MakeContractions", "contracts.importer
                        "GeneralizedContractionShell.assign_norm_cont replaced by a recorder while shells are built (its contract is C01)",
                        "wrappers.from_iodata not covered (iodata package absent)"])
 
-reg("C19", "proof", ["contracts.purity:Purity", "contracts.overlap:NormContInline", "contracts.overlap:AssignNormCont", "contracts.importers:MakeContractions",
+reg("C19", "proof", ["contracts.purity:Purity", "contracts.density:DensityFromOrbs", "contracts.density:DensityThreshold", "contracts.density:KineticDensity",
+    "contracts.overlap:NormContInline", "contracts.overlap:AssignNormCont", "contracts.importers:MakeContractions",
     "contracts.esp:ESP"],
     ["frame / fresh / errstate clauses of every public function (contracts.purity:Purity lists them)",
      "gbasis.contractions.GeneralizedContractionShell.assign_norm_cont", "gbasis.parsers.make_contractions",
